@@ -217,7 +217,7 @@ func c19Episode(sc *C19Scenario, src *moduleSource, S string) (bad *c19Outcome, 
 	simrt.Load((&Tape{}).config())
 	simrt.SeamsOn(true, false)
 	defer simrt.SeamsOn(false, false)
-	simCall(func() {
+	crashed, crashMsg := simCallSafe(func() {
 		m, err := src.Build()
 		if err != nil {
 			skip = "module rejected by the parser"
@@ -238,6 +238,15 @@ func c19Episode(sc *C19Scenario, src *moduleSource, S string) (bad *c19Outcome, 
 			}
 		}
 	})
+	if crashed && bad == nil && skip == "" {
+		// The sequential reference print of the same module did not panic.
+		bad = &c19Outcome{class: "panic", sig: "panic on a goroutine started by WriteTo", detail: crashMsg}
+		badStep = len(outs)
+		if badStep >= len(sc.Steps) {
+			badStep = len(sc.Steps) - 1
+		}
+		outs = append(outs, bad)
+	}
 	return bad, badStep, outs, skip
 }
 
